@@ -294,6 +294,9 @@ def noncanonical(addr, how):
 def text_case_st(draw):
     if draw(st.integers(0, 24)) == 0:
         return {'falsey': draw(st.sampled_from(FALSEY_TEXTS))}
+    if draw(st.integers(0, 19)) == 0:
+        lo = draw(st.integers(0, 250))
+        return {'range': [draw(st.integers(1, 300)), lo, lo + draw(st.integers(0, 20))]}
     path = draw(st.lists(seg_st(), min_size=1, max_size=4))
     forms = ['slash', 'slash', 'json_dicts', 'json_strs', 'json_pairs', 'json_mixed'] + (['json_dict'] if len(path) == 1 else [])
     case = {'path': path, 'form': draw(st.sampled_from(forms)), 'compact': draw(st.booleans()),
@@ -362,11 +365,13 @@ def configured_route_path(pers):
     return segs_of(pers['path']), None
 
 
-def ucmm_class_for(value):
+def ucmm_class_for(value, route=None):
     base = cp()['ucmm'].UCMM
 
     class UCMM(base):       # the class name selects the [UCMM] configuration section, as in main()
         route_path = value
+    if route:
+        UCMM.route = dict(route)        # a route table whose hops no generated request uses: it must not change any local decision
     return UCMM
 
 
@@ -503,7 +508,7 @@ def filter_case_st(draw, skey=None):
     steps = [draw(step_st(specs, pers, rk, svc))]
     for _ in range(draw(st.integers(0, 3))):
         steps.append(draw(step_st(specs, pers)))
-    return {'specs': specs, 'pers': pers, 'steps': steps}
+    return {'specs': specs, 'pers': pers, 'steps': steps, 'table': draw(st.integers(0, 2)) == 0}
 
 
 # ------------------------------------------------------------------------------------------------
@@ -722,7 +727,14 @@ def pred_filter(case, stats):
             stats.fail('filter', 'configuration-text-denotes-other-segments', case,
                        observed={'text': text, 'parsed': got}, expected={'segments': want})
             return
-    ucls = None if (pers['kind'] == 'none' and pers.get('via') == 'default') else ucmm_class_for(value)
+    table = None
+    if case.get('table'):
+        used = {(st_['route'][0][0], st_['route'][0][1]) for st_ in steps if st_.get('route')} | (
+            {(pers['path'][0][0], pers['path'][0][1])} if pers.get('path') else set())
+        hop = next((p, l) for p in (60000, 60001, 60002, 60003) for l in (250, 251) if (p, l) not in used and (p, str(l)) not in used)
+        table = {'%d/%d' % hop: '127.0.0.1:9', '%d/%d-%d' % (hop[0] + 10, 1, 3): '127.0.0.1:9'}
+        classes.add('pers:with-unrelated-route-table')
+    ucls = None if (pers['kind'] == 'none' and pers.get('via') == 'default' and not table) else ucmm_class_for(value, table)
     dev = sim.Device(specs, ucmm_class=ucls, attribute_class=c['counting'])
     try:
         mdl = M.Model(specs)
@@ -779,6 +791,17 @@ def pred_text(case, stats):
         if got:
             stats.fail('text', 'falsey-json-route-path-is-truthy', case, observed={'text': text, 'parsed': repr(got)},
                        expected='a Falsey value')
+        return
+
+    if 'range' in case:
+        # route-table keys: "p/a-b" spells the hops p/a .. p/b, both ends included (cpppo.cfg: "1/3-7", "1/1-15")
+        p_, a_, b_ = case['range']
+        stats.case(case, nontrivial=b_ > a_, classes=['text:route-table-range'])
+        got = [k for k, _v in c['ucmm'].port_link_expand([('%d/%d-%d' % (p_, a_, b_), 'host:1')])]
+        want = ['%d/%d' % (p_, l) for l in range(a_, b_ + 1)]
+        if got != want:
+            stats.fail('text', 'route-table-range-denotes-other-hops', case, observed={'hops': got[:6] + ['...'] + got[-2:] if len(got) > 8 else got},
+                       expected={'first': want[0], 'last': want[-1], 'count': len(want)})
         return
 
     path, form, tr = case['path'], case['form'], case['trailer']
@@ -1049,7 +1072,7 @@ def stream_case_st(draw):
     for _ in range(draw(st.integers(2, 10))):
         which = draw(st.integers(-1, len(palette) - 1))
         op = {'tag': draw(st.sampled_from(['A', 'B', 'SCADA', 'Motor.Speed'])), 'index': draw(st.integers(0, 9)),
-              'write': draw(st.booleans()), 'value': draw(st.integers(-100, 100)),
+              'write': draw(st.booleans()), 'value': draw(st.integers(-100, 100)), 'code': draw(st.integers(0, 4)) == 0,
               'send_path': draw(st.sampled_from([None, None, None, '@6/1']))}     # (a route path with an empty send path is refused by the client: documented assertion)
         if which >= 0:
             route = palette[which]
@@ -1071,7 +1094,10 @@ def pred_stream(case, stats):
     cops, want = [], []
     for op in case['ops']:
         d = {'path': [{'symbolic': t} for t in op['tag'].split('.')] + [{'element': op['index']}], 'elements': 1}
-        if op['write']:
+        if op.get('code'):
+            # the generic Service Code operation (here: Get Attribute Single spelled by its code) addressed to the tag's element
+            d = {'path': d['path'], 'method': 'service_code', 'code': 0x0E, 'data_size': 4}
+        elif op['write']:
             d.update(data=[op['value']], tag_type=rc.tcode('INT'), method='write')
         else:
             d.update(method='read')
